@@ -88,6 +88,16 @@ def gen_coll(rng, flavor=None, kinds=('tuple', 'tuple', 'iter', 'iter', 'set'), 
 
 NV = ml.NOVALUE
 
+# spellings of one sequence argument: a literal list, a lazily produced (one-shot) sequence, a
+# materialised copy - a function taking "a collection" must treat them alike
+SEQ_FLAVOURS = ('{0}', '{0}', '{0}.select($)', '{0}.toList()', '{0}.where(true)', '{0}.reverse().reverse()',
+                '{0}.select($).memorize()')
+
+
+def seq(rng, literal):
+    return rng.choice(SEQ_FLAVOURS).format(literal)
+
+
 
 class Spec:
     def __init__(self, name, build, sets_ok=False, stop_iteration=False):
@@ -163,6 +173,12 @@ def _specs():
     simple('reduce', '$c.reduce({l})', lambda c, l: ml.m_aggregate(c, l), ml.BINARY)
     simple('toDict', '$c.toDict({l})', lambda c, l: ml.m_to_dict(c, l), [ml.SELECTORS[0], ml.SELECTORS[1], ml.SELECTORS[4]])
     simple('groupBy', '$c.groupBy({l})', lambda c, l: ml.m_group_by(c, l), [ml.SELECTORS[0], ml.SELECTORS[4], ml.SELECTORS[9]])
+    simple('groupBy-value', '$c.groupBy({l}, [$])', lambda c, l: ml.m_group_by(c, l, lambda x: [x]),
+           [ml.SELECTORS[0], ml.SELECTORS[4], ml.SELECTORS[9]])
+    simple('groupBy-aggregator', '$c.groupBy({l}, $, $.len())', lambda c, l: ml.m_group_by(c, l, lambda x: x, lambda vs: len(vs)),
+           [ml.SELECTORS[0], ml.SELECTORS[4], ml.SELECTORS[9]])
+    simple('groupBy-aggregator-kw', '$c.groupBy({l}, aggregator => $.len())', lambda c, l: ml.m_group_by(c, l, None, lambda vs: len(vs)),
+           [ml.SELECTORS[0], ml.SELECTORS[4], ml.SELECTORS[9]])
     simple('enumerate', '$c.enumerate()', lambda c: ml.m_enumerate(c))
     simple('isIterable', 'isIterable($c)', lambda c: True, sets_ok=True)
     simple('isList', 'isList($c)', lambda c: isinstance(c, list))
@@ -205,8 +221,17 @@ def _specs():
     w_two('replace', '$c.replace({n}, {m})', lambda c, n, m: ml.m_replace(c, n, m), g2=lambda rng, c: 77)
     w_two('insert-iter', '$c.select($).insert({n}, {m})', lambda c, n, m: ml.m_insert(c, n, m), g1=rpos, g2=lambda rng, c: 77)
     w_two('insert-list', '$c.toList().insert({n}, {m})', lambda c, n, m: ml.m_insert(c, n, m), g1=rpos, g2=lambda rng, c: 77)
-    w_two('insertMany', '$c.insertMany({n}, [{m}, 78])', lambda c, n, m: ml.m_insert_many(c, n, [m, 78]), g2=lambda rng, c: 77)
-    w_two('replaceMany', '$c.replaceMany({n}, [{m}, 78])', lambda c, n, m: ml.m_replace_many(c, n, [m, 78]), g2=lambda rng, c: 77)
+    def w_seq(name, tmpl, model):
+        def build(rng, c):
+            n, m = rint(rng, c), rng.randrange(-2, len(c.elems) + 3)
+            return tmpl.format(n=n, m=m, s=seq(rng, '[77, 78]')), {}, (lambda cm: model(cm, n, m))
+        add(name, build)
+    w_seq('insertMany', '$c.insertMany({n}, {s})', lambda c, n, m: ml.m_insert_many(c, n, [77, 78]))
+    w_seq('replaceMany', '$c.replaceMany({n}, {s})', lambda c, n, m: ml.m_replace_many(c, n, [77, 78]))
+    w_seq('replaceMany-count', '$c.replaceMany({n}, {s}, {m})', lambda c, n, m: ml.m_replace_many(c, n, [77, 78], m))
+    w_seq('concat3', '$c.concat({s}, [5])', lambda c, n, m: ml.m_concat(c, [77, 78], [5]))
+    w_seq('zip-lit', '$c.zip({s})', lambda c, n, m: ml.m_zip(c, [77, 78]))
+    w_seq('plus-lit', '$c + {s}', lambda c, n, m: ml.m_concat(c, [77, 78]))
     w_two('aggregate-seed', '$c.aggregate($1 + $2, {n})', lambda c, n, m: ml.m_aggregate(c, lambda a, b: ml.op('+', a, b), n))
     w_two('accumulate-seed', '$c.accumulate($1 + $2, {n})', lambda c, n, m: ml.m_accumulate(c, lambda a, b: ml.op('+', a, b), n))
     w_two('range2', 'range({n}, {m})', lambda c, n, m: list(range(n, m)))
@@ -218,7 +243,6 @@ def _specs():
             return tmpl.format(n=n, m=m, k=k), {}, (lambda cm: model(cm, n, m, k))
         add(name, build)
     w_three('replace-count', '$c.replace({n}, {k}, {m})', lambda c, n, m, k: ml.m_replace(c, n, k, m))
-    w_three('replaceMany-count', '$c.replaceMany({n}, [{k}, 78], {m})', lambda c, n, m, k: ml.m_replace_many(c, n, [k, 78], m))
     w_three('range3', 'range({n}, {m}, 2)', lambda c, n, m, k: list(range(n, m, 2)))
     w_three('range3neg', 'range({n}, {m}, -1)', lambda c, n, m, k: list(range(n, m, -1)))
 
@@ -300,7 +324,8 @@ def dict_cases(rng):
     yield 'dict.set-rules', '$d.set(%s => 5, q => 6)' % k, v, lambda: dict(d, **{k: 5, 'q': 6}), False
     yield 'dict.plus', '$d + $e', v, lambda: dict(d, **e), False
     yield 'dict.delete', '$d.delete(%s, b)' % k, v, lambda: {a: b for a, b in d.items() if a not in (k, 'b')}, False
-    yield 'dict.deleteAll', '$d.deleteAll([%s, b])' % k, v, lambda: {a: b for a, b in d.items() if a not in (k, 'b')}, False
+    yield 'dict.deleteAll', '$d.deleteAll(%s)' % seq(rng, '[%s, b]' % k), v, lambda: {a: b for a, b in d.items() if a not in (k, 'b')}, False
+    yield 'dict.deleteAll-keys', '$d.deleteAll(%s)' % seq(rng, '$e.keys()'), v, lambda: {a: b for a, b in d.items() if a not in e}, False
     yield 'dict.items', '$d.items().select($).toList()', v, lambda: [[a, b] for a, b in d.items()], False
     yield 'dict.isDict', 'isDict($d)', v, lambda: True, False
     yield 'dict.mergeWith', '$d.mergeWith($e)', v, lambda: ml.m_merge_with(d, e), False
@@ -308,7 +333,8 @@ def dict_cases(rng):
     yield 'dict.mergeWith-item', '$d.mergeWith($e, itemMerger => $1)', v, lambda: ml.m_merge_with(d, e, None, lambda a, b: a), False
     yield 'dict.mergeWith-levels', '$d.mergeWith($e, maxLevels => 1)', v, lambda: ml.m_merge_with(d, e, max_levels=1), False
     yield 'dict.ctor', 'dict(%s => 1, b => $d)' % k, v, lambda: {k: 1, 'b': d} if k != 'b' else {'b': d}, False
-    yield 'dict.ctor-items', 'dict($d.items())', v, lambda: dict(d), False
+    yield 'dict.ctor-items', 'dict(%s)' % seq(rng, '$d.items()'), v, lambda: dict(d), False
+    yield 'dict.ctor-pairs', 'dict(%s)' % seq(rng, '[[%s, 1], [b, 2]]' % k), v, lambda: {k: 1, 'b': 2} if k != 'b' else {'b': 2}, False
     yield 'dict.literal', '{%s => 1, b => 2}' % k, v, lambda: {k: 1, 'b': 2} if k != 'b' else {'b': 2}, False
     yield 'dict.toDict-values', '$d.keys().toDict($, $d.get($))', v, lambda: dict(d), False
     a = [rng.choice([0, 1, 2, 3, 'x']) for _ in range(rng.randrange(0, 4))]
